@@ -336,6 +336,8 @@ func (co *ClipperOffset) doGroupOffset(group *Group) {
 		if cnt == 0 {
 			continue
 		}
+		// a two-point Joined path switches co.endType below: that must not leak into later paths
+		co.endType = group.endType
 
 		switch cnt {
 		case 1:
